@@ -301,6 +301,33 @@ func toStringListPermissive(v any) ([]string, error) {
 	return ret, nil
 }
 
+// copyTree returns a structural copy of a document tree. Unlike deepClone it
+// does not round-trip through YAML, so every scalar keeps its exact type.
+func copyTree(v any) any {
+	switch v2 := v.(type) {
+	case map[string]any:
+		ret := make(map[string]any, len(v2))
+
+		for k, v3 := range v2 {
+			ret[k] = copyTree(v3)
+		}
+
+		return ret
+
+	case []any:
+		ret := make([]any, len(v2))
+
+		for i, v3 := range v2 {
+			ret[i] = copyTree(v3)
+		}
+
+		return ret
+
+	default:
+		return v
+	}
+}
+
 func deepClone(v any) (any, error) {
 	yml, err := yaml.Marshal(v)
 	if err != nil {
